@@ -661,6 +661,11 @@ func (s *SegmentBase) DocNumbers(ids []string) (*roaring.Bitmap, error) {
 
 		postingsList := emptyPostingsList
 
+		if idDict == nil || idDict.fst == nil {
+			// no _id dictionary (e.g. a merged segment where nothing survived)
+			return rv, nil
+		}
+
 		sMax, err := idDict.fst.GetMaxKey()
 		if err != nil {
 			return nil, err
